@@ -80,6 +80,31 @@ def _stub_background_threads() -> None:
         pass
 
 
+def _prewarm_hypothesis_caches() -> None:
+    """Every run gets its own empty Hypothesis home directory (runner.execute_run), so the two pure on-disk caches
+    Hypothesis keeps there (per-source-file constant pools, the unicode table) are loaded into memory once per worker
+    instead; both are pure functions of file contents, not run history."""
+    import tempfile
+
+    from hypothesis.configuration import set_hypothesis_home_dir
+    from hypothesis.internal import charmap
+    from hypothesis.internal.constants_ast import constants_from_module, is_local_module_file
+
+    cache = os.path.join(tempfile.gettempdir(), "simhyp-cache")
+    set_hypothesis_home_dir(cache)
+    try:
+        charmap.charmap()
+    except Exception:  # noqa: BLE001
+        pass
+    for module in list(sys.modules.values()):
+        f = getattr(module, "__file__", None)
+        try:
+            if f is not None and is_local_module_file(f):
+                constants_from_module(module)
+        except Exception:  # noqa: BLE001
+            pass
+
+
 def boot(extra_whitelist: list[str] | None = None) -> dict:
     global _BOOTED
     if _BOOTED:
@@ -115,6 +140,7 @@ def boot(extra_whitelist: list[str] | None = None) -> dict:
 
         empty = hp.Constants()
         hp._get_local_constants = lambda: empty
+    _prewarm_hypothesis_caches()
     swept = S.sweep_modules()
     wl = list(DEFAULT_WHITELIST) + list(extra_whitelist or [])
     ncodes = S.enable_line_events(wl)
